@@ -91,6 +91,15 @@ CHECKS = {
     note='Trusted: clang lowering (validated per run), irsym, z3, log as uninterpreted function, normal_distribution::operator() stubbed as mean+stddev*Z (Z arbitrary real). The removal loop of the solver is covered by C08.',
     technique='symbolic execution of LLVM IR + z3 (LRA/NRA with uninterpreted log)',
     design='3/C04'),
+ 'C14': dict(
+    level='other',
+    text=('Whole iterations of the real solver (constructor + run_iteration, contact models 0/1/2, dynamic models 0/1) run from the LLVM IR on five small tissues whose input coordinates are concrete + t with t a symbolic real vector, '
+          '|t_k| <= 1e5. Doubles that are polynomials in t are kept in exact canonical form, so difference-based code runs concretely; every decision, integer or address that still mentions t is given to z3 and reported if the translation can change it. '
+          'After each of 3 (quick) / 8 (thorough) iterations: every node position = untranslated position + t, everything else (connectivity, counts, couplings, volumes, pressures, areas) is t-free and equal to the untranslated run. '
+          'Reports are confirmed by native runs at ten concrete translations. Exact-real reading: rounding of translated coordinates (e.g. cancellation in the absolute-coordinate volume formula at |t| >> cell size) is outside the claim.'),
+    note='Trusted: clang lowering (validated per run), irsym (OpenMP sequential model, writer/filesystem stubs, divide_cell contract stub), exact polynomial arithmetic, z3. On the unchanged tree no decision mentions t, so the solver has nothing to split (0 queries); a seeded absolute-position dependence produces t-dependent indices that the solver cannot bound and the native differential confirms.',
+    technique='symbolic execution of LLVM IR with exact polynomial normal form in the symbolic translation; z3 for residual t-dependent decisions; native differential replay',
+    design='3/C14'),
  'C18': dict(
     level='other',
     text=('The real parameter_reader (read_numerical_parameters, read_biomechanical_parameters, read_cell_type_parameters, read_face_type_parameters, get_string_value, lower_string, std::stod/stoi wrappers) runs from the LLVM IR '
